@@ -27,8 +27,8 @@ type Finding struct {
 	Kind     string            `json:"kind"` // "assert", "panic", "race", "deadlock"
 	Label    string            `json:"label"`
 	Detail   string            `json:"detail"`
-	Values   map[string]string `json:"values"`   // input name -> rendered value (replay)
-	Choices  []int             `json:"choices"`  // decision trail
+	Values   map[string]string `json:"values"`  // input name -> rendered value (replay)
+	Choices  []int             `json:"choices"` // decision trail
 	PathCond string            `json:"pc,omitempty"`
 }
 
@@ -55,8 +55,9 @@ type Explorer struct {
 
 	maxPaths int
 
-	dom        map[string]*byteDom
-	DomDecided int
+	dom             map[string]*byteDom
+	DomDecided      int
+	StubRefinements int
 }
 
 func NewExplorer(s *Solver) *Explorer {
